@@ -411,7 +411,8 @@ class SpecEval:
                 return z3.Length(a)
             if isinstance(a, PyTuple):
                 return z3.IntVal(len(a.items))
-            return ln(to_v(a))
+            v = to_v(a)
+            return z3.If(T.is_('Dict', v), T.dcount(v), ln(v))      # len of a dictionary is the number of its keys
         if f == 'slen':
             return z3.Length(to_str(args[0]))
         if f == 'I':
